@@ -136,6 +136,7 @@ func main() {
 		"field: key / type / payload / signature replaced, key and signature swapped between two valid envelopes, re-signing by another key, sealing for other domains, domain/type boundary shift, each record type sealed under the other's domain or type. " +
 		"garbage: empty, random bytes, every truncation, appended bytes / unknown fields. " +
 		"interleaved constructors: a private key whose Sign builds, seals and reads back ANOTHER request (ingest / register, same identity, same key type, other key type; fields of equal, shorter, longer encoded length; nested twice) before it signs - both requests must read back with their own fields; a short concurrent stress of constructors + readers (oracle only). " +
+		"hand-sealed payload shapes: envelopes sealed with a real key under the right domain and payload type over hand-written JSON (ingest) / protobuf (register): every member omitted / null / empty / of the wrong type / duplicated / in other letter case (encoding/json matches names case-insensitively, incl. the long s), unknown members, trailing garbage, non-object payloads; the decoded record is the harness' own strict reading (provider member present and a valid peer ID). " +
 		"fresh process: requests made here (own, foreign-signed, altered, cross-domain; ingest and register; all key types) are read by a NEW process of this binary BEFORE it has called any constructor, and again after it has: both verdicts must be this process's (the readers' verdict depends on the request, not on process history). " +
 		"read order: the same valid / foreign-signed / altered / cross-domain requests read in several orders and concurrently - every verdict equals the verdict in isolation. " +
 		"non-trivial = the presented bytes parse and carry a signature that some pool key really made (the verdict depends on who signed what)"
@@ -150,6 +151,7 @@ func main() {
 	genReadOrder(c)
 	genStress(c)
 	genFreshProcess(c)
+	genShapes(c)
 }
 
 // ---------------------------------------------------------------------------
@@ -194,6 +196,7 @@ type presentation struct {
 	nontrivKey string
 	shrink     func() *replayT // minimise a constructor input whose fields do not come back
 	observed   *outcome        // verdict obtained elsewhere (a fresh process): see fresh.go
+	strict     bool            // decode tables from the harness' own strict reading of the payload
 }
 
 func present(c *vlib.Ctx, p presentation) outcome {
@@ -216,10 +219,14 @@ func present(c *vlib.Ctx, p presentation) outcome {
 	if p.fam != "" {
 		di, dp := "None", "None"
 		if v != nil {
-			if f, ok := decIngest(v.pl); ok {
+			decI, decP := decIngest, decPeer
+			if p.strict {
+				decI, decP = strictIngest, strictPeer // the harness' own reading of the payload (shapes.go)
+			}
+			if f, ok := decI(v.pl); ok {
 				di = "(Some " + f.term() + ")"
 			}
-			if f, ok := decPeer(v.pl); ok {
+			if f, ok := decP(v.pl); ok {
 				dp = "(Some " + f.term() + ")"
 			}
 		}
@@ -273,10 +280,14 @@ func present(c *vlib.Ctx, p presentation) outcome {
 				c.Fail(p.reader+":foreign-signer", fmt.Sprintf("accepted a request naming %s that was signed by %s (%s)", named, signer, p.desc), rp)
 			}
 			if p.reader == rdIngest {
-				if f, ok := decIngest(v.pl); !ok || !f.equal(o.ingest) {
+				decI := decIngest
+				if p.strict {
+					decI = strictIngest
+				}
+				if f, ok := decI(v.pl); !ok || !f.equal(o.ingest) {
 					c.Fail(p.reader+":fields-not-payload", "returned fields are not what the sealed payload decodes to ("+p.desc+")", rp)
 				}
-			} else if f, ok := decPeer(v.pl); !ok || !f.equal(o.peer) {
+			} else if f, ok := map[bool]func([]byte) (peerFields, bool){false: decPeer, true: strictPeer}[p.strict](v.pl); !ok || !f.equal(o.peer) {
 				c.Fail(p.reader+":fields-not-payload", "returned fields are not what the sealed payload decodes to ("+p.desc+")", rp)
 			}
 		}
